@@ -1,7 +1,7 @@
 """C16 - VCF output states exactly the genotypes of the tree sequence (structural clauses)."""
 from __future__ import annotations
 
-from . import lib_py
+from . import lib_py, lib_vcf, lib_variant, lib_module, lib_newick
 
 LEVEL = "other"
 EXPLANATION = ("Mask-normalisation discipline in VcfWriter, option forwarding from write_vcf/as_vcf/CLI under the same names, "
@@ -13,3 +13,10 @@ def run(ctx):
     lib_py.use_after_normalise(ctx, py, "vcf", "VcfWriter.__init__")
     lib_py.kw_forward(ctx, py, mods=("vcf", "trees", "cli"))
     lib_py.unused_params(ctx, py, mods=("vcf",))
+    lib_vcf.writer_structure(ctx, py)
+    lib_newick.none_defaults(ctx, py, mods=("vcf",))
+    P = ctx.program()
+    lib_vcf.mark_missing(ctx, P)
+    lib_variant.variant_decode(ctx, P)
+    lib_module.options_plumbing(ctx, P, funcs={"Variant_init"})
+    lib_py.alias_polarity(ctx, py)
